@@ -110,6 +110,16 @@ CLAIMED = {
             'TraceJobQueue.tla, which infers where each add/insert took effect.',
             'Lock acquisition is assumed never to time out. Sub-statement atomicity (one source line) is assumed, as the code does.',
             'DESIGN.md section 6, C08'),
+    'C10': ('model_checking', 'TLC trace validation (TraceClock.tla) of the real Clock running on real threads under a deterministic scheduler with virtual time',
+            'The real Clock (its own tick thread, Event and sleep, shimmed onto virtual time) is driven by a script thread through '
+            'sequences of delays (0, fractional, longer/shorter than the work between them), time-of-day waits at any position and '
+            're-runs after stop; schedules come from bounded-preemption DFS with switch points at every source line of clock.py '
+            'and from seeded random walks. Every execution - start, each tick and whether it found the script waiting, call/return '
+            'instants of each wait - is validated by TLC against TraceClock.tla (NeverEarly, AtOnceWhenBehind, FirstTickWaiting, '
+            'TimeAtRestarts). Zero delays and raw-unit milliseconds at the Machine level are part of the Lang traces (C01/C07).',
+            'Virtual time advances only when all threads are blocked or sleeping; a weak-fairness bound pre-empts a spinning thread. '
+            'After a time-of-day wait any origin between the awaited instant and the noticing tick is accepted.',
+            'DESIGN.md section 6, C10'),
 }
 
 REASONS_PENDING = 'check not built yet in this round (planned in DESIGN.md section 6); no claim is made'
